@@ -1,7 +1,7 @@
 /-
   Proofs.C04Spec11 — `eval_eq_spec`: the induction over the expression.
 -/
-import Proofs.C04Spec10
+import Proofs.C04Acc
 
 set_option linter.unusedSimpArgs false
 set_option linter.unnecessarySeqFocus false
@@ -13,23 +13,24 @@ theorem listOps_cases (k : String) (hp : provedStrict.contains k = true)
     (hu : unaryOps.contains k = false) :
     k = "$add" ∨ k = "$multiply" ∨ k = "$subtract" ∨ k = "$divide" ∨ k = "$mod" ∨ k = "$pow" ∨
     k = "$eq" ∨ k = "$ne" ∨ k = "$gt" ∨ k = "$gte" ∨ k = "$lt" ∨ k = "$lte" ∨
-    k = "$size" ∨ k = "$concatArrays" ∨ k = "$concat" ∨ k = "$arrayElemAt" ∨ k = "$strcasecmp" := by
-  simp only [provedStrict, arithOps, datePartOps, List.cons_append, List.nil_append,
+    k = "$size" ∨ k = "$concatArrays" ∨ k = "$concat" ∨ k = "$arrayElemAt" ∨ k = "$strcasecmp" ∨
+    k = "$sum" ∨ k = "$avg" ∨ k = "$min" ∨ k = "$max" := by
+  simp only [provedStrict, arithOps, datePartOps, accOps, List.cons_append, List.nil_append,
     List.contains_cons, List.contains_nil, Bool.or_false, Bool.or_eq_true, beq_iff_eq] at hp
   rcases hp with rfl | rfl | rfl | rfl | rfl | rfl | rfl | rfl | rfl | rfl | rfl | rfl | rfl | rfl
     | rfl | rfl | rfl | rfl | rfl | rfl | rfl | rfl | rfl | rfl | rfl | rfl | rfl | rfl | rfl | rfl
-    | rfl | rfl | rfl | rfl | rfl | rfl | rfl <;>
+    | rfl | rfl | rfl | rfl | rfl | rfl | rfl | rfl | rfl | rfl | rfl <;>
   first
     | (revert hu; decide)
     | simp
 
 theorem wholeOps_cases (k : String) (hp : provedStrict.contains k = true)
     (hu : (unaryOps.contains k || k = "$size" || k = "$concatArrays") = true) : k ∈ wholeProved := by
-  simp only [provedStrict, arithOps, datePartOps, List.cons_append, List.nil_append,
+  simp only [provedStrict, arithOps, datePartOps, accOps, List.cons_append, List.nil_append,
     List.contains_cons, List.contains_nil, Bool.or_false, Bool.or_eq_true, beq_iff_eq] at hp
   rcases hp with rfl | rfl | rfl | rfl | rfl | rfl | rfl | rfl | rfl | rfl | rfl | rfl | rfl | rfl
     | rfl | rfl | rfl | rfl | rfl | rfl | rfl | rfl | rfl | rfl | rfl | rfl | rfl | rfl | rfl | rfl
-    | rfl | rfl | rfl | rfl | rfl | rfl | rfl <;>
+    | rfl | rfl | rfl | rfl | rfl | rfl | rfl | rfl | rfl | rfl | rfl <;>
   first
     | (revert hu; decide)
     | simp [wholeProved, datePartOps]
@@ -41,6 +42,7 @@ theorem list_strict (c : Ctx) (hign : c.ign = true) (k : String)
     (hr : strictReasons k vs = []) (r : Option Val) (hs : applyStrict k vs = .ok r) :
     eval c (.doc [(k, .arr xs)]) = .ok r := by
   rcases listOps_cases k hp hu with h | h | h | h | h | h | h | h | h | h | h | h | h | h | h | h | h
+    | h | h | h | h
   · exact nary_case c hign k (Or.inl h) xs vs h1 r hs
   · exact nary_case c hign k (Or.inr h) xs vs h1 r hs
   · exact binary_case c hign k (Or.inl h) xs vs h1 hr r hs
@@ -58,6 +60,10 @@ theorem list_strict (c : Ctx) (hign : c.ign = true) (k : String)
   · exact concat_case c hign k (Or.inr h) xs vs h1 r hs
   · subst h; exact elemAt_case c xs vs h1 hr r hs
   · subst h; exact strcasecmp_case c xs vs h1 r hs
+  · exact acc_case c hign k (Or.inl h) xs vs h1 hr r hs
+  · exact acc_case c hign k (Or.inr (Or.inl h)) xs vs h1 hr r hs
+  · exact acc_case c hign k (Or.inr (Or.inr (Or.inl h))) xs vs h1 hr r hs
+  · exact acc_case c hign k (Or.inr (Or.inr (Or.inr h))) xs vs h1 hr r hs
 
 theorem wholeProved_mode (k : String) (hk : k ∈ wholeProved) (v : Val) (ha : v.isArr = false)
     (htz : hasTzKeys v = false) :
